@@ -389,6 +389,16 @@ def verify_unit(name, spec_path, repo, build_dir, extra=None, do_canary=True, ti
         res.reason = "verus rc=%s, success=%s, unexplained failing functions: %s; %s" % (rc, vr.get("success"), bad, res.stderr_tail[-500:])
     res.rlimit_hit = rlimit_hit
 
+    if res.status == "ok":
+        try:
+            from . import pins
+            ch = pins.changed_files(repo, [r.file for r in u.regions])
+        except Exception as e:      # a pin that cannot be evaluated is a changed pin
+            ch = ["(pins: %s)" % e]
+        if ch:
+            res.status = "undecided"
+            res.reason = "code outside the functions under contract changed in %s (derive lists, impls, helpers): not decided by the verifier" % ", ".join(ch)
+            res.remainder_changed = ch
     if res.status == "ok" and getattr(res, "watched_changed", None):
         res.status = "undecided"
         res.reason = "a watched function outside the verifier's reach changed: %s" % ", ".join(res.watched_changed)
